@@ -99,26 +99,46 @@ func For[V any](
 	body Seq[V],
 ) Seq[V] {
 	return func(c *co[V], k cont[V]) {
-		var loop func(skipPost bool)
-		loop = func(skipPost bool) {
-			if post != nil && !skipPost {
-				post()
-			}
-			if cond == nil || cond() {
-				body(c, func(t contType, v V) {
-					switch t {
-					case kNormal, kContinue:
-						loop(false)
-					case kBreak:
-						k(kNormal, zero[V]())
-					case kReturn:
-						k(kReturn, v)
-					default:
-						panic("unreachable")
-					}
-				})
-			} else {
+		var (
+			loop    func(skipPost bool)
+			running bool // a loop frame is on the stack, executing body
+			again   bool // body completed without yielding: iterate in that frame
+		)
+		next := func(t contType, v V) {
+			switch t {
+			case kNormal, kContinue:
+				if running {
+					// trampoline: return to the loop frame instead of nesting
+					// a new one, the stack must not grow with the iteration count
+					again = true
+				} else {
+					loop(false) // resumed after a yield, the frame is gone
+				}
+			case kBreak:
 				k(kNormal, zero[V]())
+			case kReturn:
+				k(kReturn, v)
+			default:
+				panic("unreachable")
+			}
+		}
+		loop = func(skipPost bool) {
+			defer func(r bool) { running = r }(running)
+			for {
+				if post != nil && !skipPost {
+					post()
+				}
+				if cond != nil && !cond() {
+					k(kNormal, zero[V]())
+					return
+				}
+				running, again = true, false
+				body(c, next)
+				running = false
+				if !again {
+					return // yielded, or left the loop
+				}
+				skipPost = false
 			}
 		}
 		loop(true)
